@@ -215,14 +215,17 @@ RULE = ("seeded random table models (layered re-converging, negative costs, ties
 
 # ================================================================================ C01 / C02 / C09 / C10-solver / C11-solver
 def check_c01(tier, pid="C01"):
-    sc = SolveCheck(pid, tier, "proof" if pid in ("C01", "C02") else "other")
+    sc = SolveCheck(pid, tier, "proof")
     if pid == "C01": sc.proofs("C01+C01u", ["C01_seq_solver_correct_under_diagram_contracts", "C01_sequential_solver_returns_optimum",
                                             "C01_sequential_solver_returns_optimum_unbounded_relax", "C01_holds_on_table_family", "C01_example_instance",
                                             "C01_sequential_solver_returns_optimum_NoDupFringe", "C01_NoDupFringe_under_diagram_contracts",
                                             "C01_holds_on_table_family_NoDupFringe", "C01_example_instance_with_coalescing"])
-    if pid == "C09": sc.proofs("C09u", ["C09_every_threshold_of_a_compilation_is_sound", "C09_every_cache_entry_written_is_sound",
+    if pid == "C09": sc.proofs("C09u+C09su", ["C09_every_threshold_of_a_compilation_is_sound", "C09_every_cache_entry_written_is_sound",
                                         "C09_every_cache_entry_written_is_sound_within_the_guard", "C09_thresholds_sound_machine_integers",
-                                        "C09_holds_on_table_family", "C09_example_threshold_above_the_node_value"])
+                                        "C09_holds_on_table_family", "C09_example_threshold_above_the_node_value",
+                                        "C09_sequential_solver_with_cache_returns_optimum", "C09_cache_does_not_change_the_answer",
+                                        "C09_solver_theorem_from_the_cache_contracts", "C09_cache_contract_holds_for_the_diagram_model",
+                                        "C09_search_holds_on_table_family", "C09_example_cache_prunes"])
     if pid == "C02": sc.proofs("C02+C02u", ["C02_best_exact_path_replays", "C02_chain_feasible_in_exact_arithmetic",
                                             "C02_sequential_solution_replays_to_reported_value"])
     if not sc.build(): return sc.chk.finish()
@@ -384,8 +387,8 @@ def check_c01(tier, pid="C01"):
     }[pid]
     openo = {"C01": ["C01 theorem for cache / dominance / pooled configurations (covered by correspondence + oracle only)"],
              "C02": ["C02 theorem for cache / dominance / pooled / NoDupFringe configurations and for parallel runs cut off by a cutoff"],
-             "C09": ["C09_cache_preserves_optimum (search-level: the handed-out sub-problems are eventually explored; thresholds of earlier diagrams prune later ones) - NOT proved",
-                     "thresholds of pooled diagrams and of compilations that start from a non-empty cache or use a dominance rule"]}[pid]
+             "C09": ["the PARALLEL solver with the cache (the proof needs best-first pops by one thread: correspondence + oracle only)",
+                     "pooled diagrams, NoDupFringe, a dominance rule together with the cache: correspondence + oracle only"]}[pid]
     return sc.finish(RULE, expl, openo, extra)
 
 
